@@ -43,6 +43,19 @@ Theorem C06_orders_wellformed : forall g s,
 Proof. exact reachable_orders_wellformed. Qed.
 Print Assumptions C06_orders_wellformed.
 
+(* Inv_all (including Inv_escrow, Inv_orders, Inv_qty) holds after any number of blocks, the next begin-block and any prefix of its messages *)
+Theorem C06_all_invariants_in_every_intermediate_state : forall authority g h1 bl ms1 ms2 s1 s2,
+  Inv_all g -> run authority g h1 = LOk s1 -> begin_block (blk_time bl) s1 = LOk s2 -> blk_msgs bl = ms1 ++ ms2 ->
+  Inv_all s1 /\ Inv_all s2 /\ Inv_all (deliver_all (block_env authority bl) ms1 s2).
+Proof. exact run_intermediate_all. Qed.
+Print Assumptions C06_all_invariants_in_every_intermediate_state.
+
+(* one step: any message of any family through the transaction rule *)
+Theorem C06_every_message_preserves_all : forall e s m,
+  Inv_all s -> Inv_all (deliver e s m).1.
+Proof. exact deliver_preserves_all. Qed.
+Print Assumptions C06_every_message_preserves_all.
+
 (* begin-block removes exactly the expired orders and returns their escrow to tradable *)
 Theorem C06_prune_removes_exactly_the_expired : forall t s s',
   Inv_core s -> prune_sell_orders t s = LOk s' ->
